@@ -20,10 +20,150 @@ type slEngine struct {
 	P    *Program
 	memo map[ssa.Value]int // 1 in progress (assumed true), 2 true, 3 false
 	why  map[ssa.Value]string
+	imm  map[ssa.Value]int
+	immF map[string]int
 }
 
 func newSL(P *Program) *slEngine {
-	return &slEngine{P: P, memo: map[ssa.Value]int{}, why: map[ssa.Value]string{}}
+	return &slEngine{P: P, memo: map[ssa.Value]int{}, why: map[ssa.Value]string{}, imm: map[ssa.Value]int{}, immF: map[string]int{}}
+}
+
+// Immutable decides whether the bytes of string value v can change after the
+// value was produced. Go strings are immutable unless they are views made with
+// unsafe.String over memory somebody else may overwrite (a caller's []byte, a
+// scanner's reused buffer). A single-line check on such a view proves nothing
+// about its later contents, so sinks require immutability as well.
+func (e *slEngine) Immutable(v ssa.Value) (bool, string) {
+	switch e.imm[v] {
+	case 1, 2:
+		return true, ""
+	case 3:
+		return false, "derived from an unsafe.String view of mutable memory"
+	}
+	e.imm[v] = 1
+	ok, why := e.immutable(v)
+	if ok {
+		e.imm[v] = 2
+	} else {
+		e.imm[v] = 3
+	}
+	return ok, why
+}
+
+func (e *slEngine) immutable(v ssa.Value) (bool, string) {
+	switch x := v.(type) {
+	case *ssa.Const:
+		return true, ""
+	case *ssa.Call:
+		if b, ok := x.Call.Value.(*ssa.Builtin); ok && b.Name() == "String" {
+			return false, "unsafe.String(...) at " + e.P.ipos(x) + " aliases memory that its owner may overwrite"
+		}
+		if callee := x.Call.StaticCallee(); callee != nil {
+			if idx, ok := slicePreserving(callee); ok {
+				return e.Immutable(x.Call.Args[idx])
+			}
+		}
+		return true, ""
+	case *ssa.Extract:
+		if call, ok := x.Tuple.(*ssa.Call); ok {
+			if _, isNC := isModCall(call, "parser.NextChunk"); isNC && (x.Index == 0 || x.Index == 1) {
+				return e.Immutable(call.Call.Args[0])
+			}
+		}
+		return true, ""
+	case *ssa.Slice:
+		return e.Immutable(x.X)
+	case *ssa.ChangeType:
+		return e.Immutable(x.X)
+	case *ssa.Phi:
+		for _, ed := range x.Edges {
+			if ok, why := e.Immutable(ed); !ok {
+				return false, why
+			}
+		}
+		return true, ""
+	case *ssa.BinOp:
+		return true, "" // concatenation allocates
+	case *ssa.Field:
+		if isSLFieldSel(x) {
+			return true, ""
+		}
+		if o, n, _, ok := fieldSel(x); ok {
+			return e.immutableField(o, n)
+		}
+		return true, ""
+	case *ssa.UnOp:
+		addr, ok := loadedFrom(x)
+		if !ok {
+			return true, ""
+		}
+		if isSLFieldSel(addr) {
+			return true, "" // immutable by the invariant its own sink rule establishes
+		}
+		if o, n, _, ok := fieldSel(addr); ok {
+			return e.immutableField(o, n)
+		}
+		root := cellRoot(addr)
+		if _, isAlloc := root.(*ssa.Alloc); isAlloc {
+			st, _, esc := cellStores(addr)
+			if !esc {
+				for _, sv := range st {
+					if ok, why := e.Immutable(sv); !ok {
+						return false, why
+					}
+				}
+			}
+		}
+		return true, ""
+	case *ssa.Parameter:
+		fn := x.Parent()
+		if fn.Parent() == nil && fn.Object() != nil && fn.Object().Exported() && fn.Pkg != nil && fn.Pkg.Pkg.Path() == modPath {
+			return true, "" // a caller's Go string (public API)
+		}
+		idx := -1
+		for i, p := range fn.Params {
+			if p == x {
+				idx = i
+			}
+		}
+		for _, s := range e.P.staticCallSites(fn) {
+			args := s.Common().Args
+			if idx >= 0 && idx < len(args) {
+				if ok, why := e.Immutable(args[idx]); !ok {
+					return false, "argument at " + e.P.ipos(s) + ": " + why
+				}
+			}
+		}
+		return true, ""
+	}
+	return true, ""
+}
+
+// immutableField: every field-level store of a string into owner.name in the module is immutable.
+func (e *slEngine) immutableField(owner, name string) (bool, string) {
+	key := owner + "." + name
+	switch e.immF[key] {
+	case 1, 2:
+		return true, ""
+	case 3:
+		return false, "field " + key + " can hold an unsafe.String view"
+	}
+	e.immF[key] = 1
+	for _, a := range e.P.fieldAccesses(owner, name) {
+		if a.Kind != "write" {
+			continue
+		}
+		st := a.Use.(*ssa.Store)
+		if st.Val.Type().String() != "string" {
+			continue
+		}
+		if ok, why := e.Immutable(st.Val); !ok {
+			e.immF[key] = 3
+			return false, "field " + key + " is stored at " + e.P.ipos(st) + ": " + why
+		}
+	}
+	e.immF[key] = 2
+	return true, ""
 }
 
 var slFields = [][2]string{{"messageField", "value"}, {"chunk", "content"}, {"parser.Field", "Value"}}
